@@ -23,6 +23,7 @@ fn main() {
     }
     rt::install_panic_hook();
     rt::install_fault_handlers();
+    rt::start_watchdog(std::env::var("VERIF_HANG_LIMIT_S").ok().and_then(|s| s.parse().ok()).unwrap_or(180));
     let threads = std::env::var("VERIF_THREADS").ok().and_then(|s| s.parse().ok()).unwrap_or(16usize);
     rayon::ThreadPoolBuilder::new()
         .num_threads(threads)
